@@ -96,7 +96,8 @@ int sm4_cfb_encrypt_update(SM4_CFB_CTX *ctx,
 		return -1;
 	}
 	if (!out) {
-		*outlen = 16 * ((inlen + 15)/16);
+		// whole segments of the buffered bytes plus the input: up to sbytes - 1 more than inlen
+		*outlen = 16 * ((inlen + ctx->sbytes - 1 + 15)/16);
 		return 1;
 	}
 	if (ctx->block_nbytes >= ctx->sbytes) {
@@ -183,7 +184,8 @@ int sm4_cfb_decrypt_update(SM4_CFB_CTX *ctx,
 		return -1;
 	}
 	if (!out) {
-		*outlen = 16 * ((inlen + 15)/16);
+		// whole segments of the buffered bytes plus the input: up to sbytes - 1 more than inlen
+		*outlen = 16 * ((inlen + ctx->sbytes - 1 + 15)/16);
 		return 1;
 	}
 	if (ctx->block_nbytes >= ctx->sbytes) {
